@@ -27,7 +27,7 @@ def run(tier, seed):
              (F.psse_transf2('C13'), F.WIT_TRANSF, F.replay_transf)]
     # the table handed to the xlsx / json writers (cache.df_in): input-base values, converters applied to those
     from contracts import fn_pu
-    items += [(fn_pu.as_dict('C13'),), (fn_pu.as_dict('C13', converter=True),)]
+    items += [(fn_pu.as_dict('C13'),), (fn_pu.as_dict('C13', converter=True),), (fn_pu.as_df('C13'), None, fn_pu.replay_as_df_after_reset)]
     items += [(F.writer_refreshes('C13', 'xlsx'), None, F.replay_altered_dump), (F.writer_refreshes('C13', 'json'), None, F.replay_altered_dump)]
     run_contracts(pack, items)
     # F14: outside the proved precondition; confirmed natively on every run while it is listed
